@@ -36,7 +36,7 @@ def c18 (ln : Nat) (t : List String) : Option (List String) :=
     | none => some [out ln "ip" "sundef"]
   | "v.interp" :: "q" :: r =>
     let (a, r) := takeF 4 r; let (b, r) := takeF 4 r; let (l, _) := takeF 1 r
-    match interpManifold (dist2Q piC a b) a b l.head! with
+    match interpQ piC a b l.head! with
     | some v => some [out ln "ip" (fsTok v)]
     | none => some [out ln "ip" "sundef"]
   | _ => none
